@@ -67,6 +67,8 @@ package analysis
 //@   ensures [nested_directories_rejected] err == nil ==> (forall a int, b int :: {dirOutputs[a], dirOutputs[b]} 0 <= a && a < b && b < len(dirOutputs) ==>
 //@        orderedT(graph, dirOutputs[a].target, dirOutputs[b].target) ||
 //@        !(dirOutputs[a].path == dirOutputs[b].path || hasPrefix(dirOutputs[a].path, dirOutputs[b].path + "/") || hasPrefix(dirOutputs[b].path, dirOutputs[a].path + "/")))
+//@   ensures [same_file_written_twice_rejected] err == nil ==> (forall p string, a int, b int :: {fileMap[p][a], fileMap[p][b]} has(fileMap, p) && 0 <= a && a < b && b < len(fileMap[p]) ==>
+//@        orderedT(graph, fileMap[p][a].target, fileMap[p][b].target))
 //@   ensures [file_inside_directory_rejected] err == nil ==> (forall a int, k int :: {dirOutputs[a], fileOutputs[k]} 0 <= a && a < len(dirOutputs) && 0 <= k && k < len(fileOutputs) ==>
 //@        orderedT(graph, dirOutputs[a].target, fileOutputs[k].target) ||
 //@        !(fileOutputs[k].path == dirOutputs[a].path || hasPrefix(fileOutputs[k].path, dirOutputs[a].path + "/")))
@@ -89,10 +91,18 @@ package analysis
 //@   invariant [file_map_records_are_nodes] forall t string, q int :: {fileMap[t][q]} has(fileMap, t) && 0 <= q && q < len(fileMap[t]) ==> recOK(graph, fileMap[t][q].target)
 //@ loop #7
 //@   invariant [file_map_records_are_nodes] forall t string, q int :: {fileMap[t][q]} has(fileMap, t) && 0 <= q && q < len(fileMap[t]) ==> recOK(graph, fileMap[t][q].target)
+//@   invariant [groups_done] len(conflicts) == 0 ==> (forall p string, a int, b int :: {fileMap[p][a], fileMap[p][b]} seen(p) && 0 <= a && a < b && b < len(fileMap[p]) ==>
+//@        orderedT(graph, fileMap[p][a].target, fileMap[p][b].target))
 //@ loop #8
 //@   invariant [index] i#2 >= 0 && (forall q int :: {records#2[q]} 0 <= q && q < len(records#2) ==> recOK(graph, records#2[q].target))
+//@   invariant [group_rows_done] len(conflicts) == 0 ==> (forall a int, b int :: {records#2[a], records#2[b]} 0 <= a && a < i#2 && a < b && b < len(records#2) ==>
+//@        orderedT(graph, records#2[a].target, records#2[b].target))
 //@ loop #9
 //@   invariant [index] i#2 >= 0 && i#2 < len(records#2) && j#2 > i#2 && (forall q int :: {records#2[q]} 0 <= q && q < len(records#2) ==> recOK(graph, records#2[q].target))
+//@   invariant [group_rows_done] len(conflicts) == 0 ==> (forall a int, b int :: {records#2[a], records#2[b]} 0 <= a && a < i#2 && a < b && b < len(records#2) ==>
+//@        orderedT(graph, records#2[a].target, records#2[b].target))
+//@   invariant [group_row_so_far] len(conflicts) == 0 ==> (forall b int :: {records#2[b]} i#2 < b && b < j#2 && b < len(records#2) ==>
+//@        orderedT(graph, records#2[i#2].target, records#2[b].target))
 //@ loop #10
 //@   invariant [rows_done] i#3 >= 0 && (len(conflicts) == 0 ==> (forall a int, b int :: {dirOutputs[a], dirOutputs[b]} 0 <= a && a < i#3 && a < b && b < len(dirOutputs) ==>
 //@        orderedT(graph, dirOutputs[a].target, dirOutputs[b].target) ||
